@@ -123,6 +123,13 @@ Proof.
   destruct (memZ (f e) us); rewrite IH; reflexivity.
 Qed.
 
+Lemma filter_mask_mask_ids {W} us (t : table W) :
+  filter_mask (mask (ids t) us) t = filter (fun e => memZ (fst e) us) t.
+Proof.
+  induction t as [|e t IH]; simpl; [reflexivity|].
+  destruct (memZ (fst e) us); rewrite IH; reflexivity.
+Qed.
+
 Lemma filter_mask_map {A} (p : A -> bool) (t : list A) :
   filter_mask (map p t) t = filter p t.
 Proof. induction t as [|e t IH]; simpl; [reflexivity|]. destruct (p e); rewrite IH; reflexivity. Qed.
@@ -230,3 +237,431 @@ Proof.
 Qed.
 
 End Efilter.
+
+(* ------------------------------------------------------------ the cuts *)
+Section Cuts.
+Context {V : Type}.
+Implicit Types m : mesh V.
+
+Lemma map_nodal_spec (f : table V -> option (table V)) l r : map_nodal f l = Some r ->
+  Forall2 (fun nv nv' => fst nv' = fst nv /\ f (snd nv) = Some (snd nv')) l r.
+Proof.
+  unfold map_nodal. revert r. induction l as [|[nm var] l IH]; simpl; intros r H.
+  - inversion H. constructor.
+  - destruct (f var) eqn:F; simpl in H; [|discriminate].
+    destruct (mapM _ l) eqn:M; [|discriminate]. inversion H; subst.
+    constructor; [simpl; auto | apply IH; reflexivity].
+Qed.
+
+Lemma Forall2_impl {A B} (P Q : A -> B -> Prop) l r :
+  (forall a b, In a l -> P a b -> Q a b) -> Forall2 P l r -> Forall2 Q l r.
+Proof.
+  intros H F. induction F; constructor; [apply H; simpl; auto|].
+  apply IHF. intros; apply H; simpl; auto.
+Qed.
+
+Lemma Forall2_map_r {A B} (g : A -> B) (Q : A -> B -> Prop) l :
+  (forall a, In a l -> Q a (g a)) -> Forall2 Q l (map g l).
+Proof. induction l; simpl; intros H; constructor; auto. Qed.
+
+Lemma conn_ids_In (bs : @blocks conn) n :
+  In n (conn_ids bs) <-> exists i t c, In (i, (t, c)) (flatten bs) /\ In n c.
+Proof.
+  unfold conn_ids. rewrite in_flat_map. split.
+  - intros [[t b] [Hb H]]. simpl in H. apply in_flat_map in H. destruct H as [[i c] [Hc Hn]].
+    exists i, t, c. split; auto. apply flatten_In. eauto.
+  - intros [i [t [c [H Hn]]]]. apply flatten_In in H. destruct H as [b [Hb Hc]].
+    exists (t, b). split; auto. simpl. apply in_flat_map. exists (i, c). auto.
+Qed.
+
+Lemma wf_parts m : wf_mesh m = true ->
+  NoDup (ids (nodes m)) /\ NoDup (ids (flatten (elems m))) /\
+  (forall n, In n (conn_ids (elems m)) -> In n (ids (nodes m))).
+Proof.
+  unfold wf_mesh, eids. rewrite !andb_true_iff. intros [[[A B] _] D].
+  apply nodupZ_NoDup in A. apply nodupZ_NoDup in B. repeat split; auto.
+  intros n Hn. rewrite forallb_forall in D. apply memZ_In. auto.
+Qed.
+
+(* the relation between a nodal variable before and after: same name, defined
+   exactly on the retained nodes, every retained node keeps its row *)
+Definition nodal_kept (m m' : mesh V) : Prop :=
+  Forall2 (fun nv nv' => fst nv' = fst nv /\ ids (snd nv') = ids (nodes m') /\
+             forall n, In n (ids (nodes m')) -> lookup n (snd nv') = lookup n (snd nv))
+          (nodal m) (nodal m').
+
+(* ... and for elemental variables: the retained elements that carry a value
+   keep it, nothing else appears *)
+Definition elemental_kept (m m' : mesh V) (kept : Z -> Prop) : Prop :=
+  Forall2 (fun nv nv' => fst nv' = fst nv /\
+             (NoDup (ids (flatten (snd nv))) -> forall i t v,
+                In (i, (t, v)) (flatten (snd nv')) <-> kept i /\ In (i, (t, v)) (flatten (snd nv))))
+          (elemental m) (elemental m').
+
+Theorem cut_with_element_ids_spec m m' sel :
+  wf_mesh m = true -> cut_with_element_ids m sel = Some m' ->
+  (* exactly the requested elements, each with its type and connectivity *)
+  (forall i t c, In (i, (t, c)) (flatten (elems m')) <->
+                 In i sel /\ In (i, (t, c)) (flatten (elems m))) /\
+  (* exactly the nodes they refer to, once each, ascending; coordinates kept *)
+  ids (nodes m') = uniqueZ (conn_ids (elems m')) /\
+  self_contained m' /\
+  (forall n, In n (ids (nodes m')) -> lookup n (nodes m') = lookup n (nodes m)) /\
+  nodal_kept m m' /\
+  elemental_kept m m' (fun i => In i sel).
+Proof.
+  intros W H. destruct (wf_parts m W) as [NDn [NDe Href]].
+  unfold cut_with_element_ids in H.
+  set (fe := efilter (elems m) sel) in *.
+  destruct fe as [|b0 fe'] eqn:Efe; [discriminate|]. rewrite <- Efe in *. clear Efe b0 fe'.
+  set (nids := uniqueZ (conn_ids fe)) in *.
+  destruct (select_ids nids (nodes m)) as [ns|] eqn:Sn; [|discriminate].
+  destruct (map_nodal (select_ids nids) (nodal m)) as [nd|] eqn:Sd; [|discriminate].
+  inversion H; subst m'; clear H. simpl.
+  pose proof (select_ids_ids _ _ _ Sn) as Ei.
+  split; [intros i t c; apply efilter_In; auto|].
+  split; [exact Ei|].
+  split.
+  { split; simpl.
+    - rewrite Ei. apply uniqueZ_NoDup.
+    - intros n Hn. rewrite Ei. apply uniqueZ_In. exact Hn. }
+  split.
+  { intros n Hn. rewrite Ei in Hn. eapply select_ids_lookup; eauto. }
+  split.
+  - unfold nodal_kept; simpl. eapply Forall2_impl; [|apply map_nodal_spec; exact Sd].
+    intros nv nv' _ [A B]. simpl in B. split; auto. split.
+    + rewrite Ei. eapply select_ids_ids; eauto.
+    + intros n Hn. rewrite Ei in Hn. eapply select_ids_lookup; eauto.
+  - unfold elemental_kept; simpl. apply Forall2_map_r. intros nv _. simpl. split; auto.
+    intros ND i t v. apply efilter_In; auto.
+Qed.
+
+Theorem cut_with_element_type_spec m m' t :
+  wf_mesh m = true -> cut_with_element_type m t = Some m' ->
+  exists b, block_of t (elems m) = Some b /\ cut_with_element_ids m (ids b) = Some m'.
+Proof.
+  unfold cut_with_element_type. intros _ H. destruct (block_of t (elems m)) as [b|]; [|discriminate].
+  eauto.
+Qed.
+
+Theorem extract_with_element_indices_spec m m' ks :
+  wf_mesh m = true -> extract_with_element_indices m ks = Some m' ->
+  exists s sel, update_self (elems m) = Some s /\ mapM (fun k => nth_error (s_ids s) k) ks = Some sel /\
+                cut_with_element_ids m sel = Some m'.
+Proof.
+  unfold extract_with_element_indices. intros _ H.
+  destruct (update_self (elems m)) as [s|]; [|discriminate].
+  destruct (mapM _ ks) as [sel|] eqn:M; [|discriminate]. eauto.
+Qed.
+
+End Cuts.
+
+Section CutNodes.
+Context {V : Type}.
+Implicit Types m : mesh V.
+
+Lemma update_self_srt {W} (bs : @blocks W) s : update_self bs = Some s ->
+  exists srt, Permutation (flatten bs) srt /\ NoDup (ids (flatten bs)) /\
+              s_ids s = ids srt /\ s_data s = map snd (vals srt) /\ s_types s = map fst (vals srt).
+Proof.
+  unfold update_self. destruct (nodupZ (ids (flatten bs))) eqn:ND; simpl; [|discriminate].
+  apply nodupZ_NoDup in ND. intros H. inversion H; subst; clear H; simpl.
+  exists (match bs with [_] => flatten bs | _ => sort_by_id (flatten bs) end).
+  repeat split; auto.
+  destruct bs as [|b [|b' r]]; try apply sort_perm. reflexivity.
+Qed.
+
+Lemma combine_ids_data {W} (srt : table (nat * W)) :
+  combine (ids srt) (map snd (vals srt)) = map (fun e => (fst e, snd (snd e))) srt.
+Proof. induction srt as [|[i [t c]] r IH]; simpl; [|rewrite IH]; reflexivity. Qed.
+
+Lemma keep_In (bs : @blocks conn) s sel i : update_self bs = Some s ->
+  (In i (map fst (filter (fun ic => inside sel (snd ic)) (combine (s_ids s) (s_data s)))) <->
+   exists t c, In (i, (t, c)) (flatten bs) /\ inside sel c = true).
+Proof.
+  intros H. destruct (update_self_srt bs s H) as [srt [P [ND [E1 [E2 _]]]]].
+  rewrite E1, E2, combine_ids_data. rewrite in_map_iff. split.
+  - intros [[j c] [E Hf]]. simpl in E; subst j. apply filter_In in Hf. destruct Hf as [Hm Hi].
+    apply in_map_iff in Hm. destruct Hm as [[j [t c']] [E Hs]]. simpl in E. inversion E; subst.
+    exists t, c. split; auto. eapply Permutation_in; [apply Permutation_sym; exact P|exact Hs].
+  - intros [t [c [Hf Hi]]]. exists (i, c). split; auto. apply filter_In. split; auto.
+    apply in_map_iff. exists (i, (t, c)). split; auto. eapply Permutation_in; eauto.
+Qed.
+
+Theorem cut_with_node_ids_spec m m' sel :
+  wf_mesh m = true -> NoDup sel -> cut_with_node_ids m sel = Some m' ->
+  (* exactly the requested nodes, in the order requested; coordinates kept *)
+  ids (nodes m') = sel /\
+  (forall n, In n sel -> lookup n (nodes m') = lookup n (nodes m)) /\
+  (* exactly the elements all of whose nodes were requested *)
+  (forall i t c, In (i, (t, c)) (flatten (elems m')) <->
+                 In (i, (t, c)) (flatten (elems m)) /\ inside sel c = true) /\
+  self_contained m' /\
+  nodal_kept m m' /\
+  elemental_kept m m' (fun i => exists t c, In (i, (t, c)) (flatten (elems m)) /\ inside sel c = true).
+Proof.
+  intros W NDs H. destruct (wf_parts m W) as [NDn [NDe Href]].
+  unfold cut_with_node_ids in H.
+  destruct (update_self (elems m)) as [s|] eqn:Us; [|discriminate].
+  set (keep := map fst (filter (fun ic => inside sel (snd ic)) (combine (s_ids s) (s_data s)))) in *.
+  destruct (select_ids sel (nodes m)) as [ns|] eqn:Sn; [|discriminate].
+  destruct (map_nodal (select_ids sel) (nodal m)) as [nd|] eqn:Sd; [|discriminate].
+  inversion H; subst m'; clear H. simpl.
+  pose proof (select_ids_ids _ _ _ Sn) as Ei.
+  assert (Hel : forall i t c, In (i, (t, c)) (flatten (efilter (elems m) keep)) <->
+                              In (i, (t, c)) (flatten (elems m)) /\ inside sel c = true).
+  { intros i t c. rewrite efilter_In by auto. unfold keep. rewrite (keep_In _ _ sel i Us). split.
+    - intros [[t' [c' [Hf Hi]]] Hf']. split; auto.
+      pose proof (In_lookup _ _ _ NDe Hf) as L1. pose proof (In_lookup _ _ _ NDe Hf') as L2.
+      rewrite L1 in L2. inversion L2; subst. exact Hi.
+    - intros [Hf Hi]. split; eauto. }
+  split; [exact Ei|].
+  split; [intros n Hn; eapply select_ids_lookup; eauto|].
+  split; [exact Hel|].
+  split.
+  { split; simpl; [rewrite Ei; exact NDs|].
+    intros n Hn. apply conn_ids_In in Hn. destruct Hn as [i [t [c [Hf Hc]]]].
+    apply Hel in Hf. destruct Hf as [_ Hi]. unfold inside in Hi. rewrite forallb_forall in Hi.
+    rewrite Ei. apply memZ_In. auto. }
+  split.
+  - unfold nodal_kept; simpl. eapply Forall2_impl; [|apply map_nodal_spec; exact Sd].
+    intros nv nv' _ [A B]. simpl in B. split; auto. split.
+    + rewrite Ei. eapply select_ids_ids; eauto.
+    + intros n Hn. rewrite Ei in Hn. eapply select_ids_lookup; eauto.
+  - unfold elemental_kept; simpl. apply Forall2_map_r. intros nv _. simpl. split; auto.
+    intros ND i t v. rewrite efilter_In by auto. unfold keep. rewrite (keep_In _ _ sel i Us). tauto.
+Qed.
+
+(* ---------------------------------------------------- remove_useless_nodes *)
+Definition strip (e : Z * (nat * V)) : Z * V := (fst e, snd (snd e)).
+
+Lemma strip_indexed_gen (t : table V) k :
+  map strip (combine (ids t) (combine (seq k (length t)) (vals t))) = t.
+Proof.
+  revert k. induction t as [|[i v] t IH]; intros k; simpl; [reflexivity|].
+  unfold strip at 1; simpl. f_equal. apply IH.
+Qed.
+
+Lemma ids_indexed (t : table V) : ids (indexed t) = ids t.
+Proof.
+  unfold indexed. apply ids_combine. rewrite combine_length, seq_length, vals_length, ids_length. lia.
+Qed.
+
+Lemma ids_strip (l : table (nat * V)) : ids (map strip l) = ids l.
+Proof. unfold ids. rewrite map_map. reflexivity. Qed.
+
+(* nodes part of remove_useless_nodes: exactly the referenced nodes remain,
+   once each, with their coordinates; elements and elemental data untouched *)
+Theorem remove_useless_nodes_nodes c m m' :
+  wf_mesh m = true -> remove_useless_nodes c m = Some m' ->
+  elems m' = elems m /\ elemental m' = elemental m /\
+  (forall n, In n (ids (nodes m')) <-> In n (conn_ids (elems m))) /\
+  self_contained m' /\
+  (forall n, In n (ids (nodes m')) -> lookup n (nodes m') = lookup n (nodes m)).
+Proof.
+  intros W H. destruct (wf_parts m W) as [NDn [NDe Href]].
+  unfold remove_useless_nodes in H.
+  set (useful := uniqueZ (conn_ids (elems m))) in *.
+  set (sorted := sort_by_id (indexed (nodes m))) in *.
+  assert (NDi : NoDup (ids (indexed (nodes m)))) by (rewrite ids_indexed; auto).
+  assert (Ps : Permutation (ids (nodes m)) (ids sorted)).
+  { rewrite <- ids_indexed. apply sort_ids_perm. }
+  assert (Ss : StronglySorted Z.lt (ids sorted)) by (apply sort_ids_strict; auto).
+  assert (Hinc : incl useful (ids sorted)).
+  { intros n Hn. unfold useful in Hn. apply (proj1 (uniqueZ_In _ _)) in Hn.
+    eapply Permutation_in; [exact Ps|]. apply Href; exact Hn. }
+  destruct (Nat.eqb (length sorted) (length useful)).
+  - destruct (list_eqb (ids sorted) useful) eqn:E; [|discriminate].
+    apply list_eqb_eq in E. inversion H; subst m'; clear H.
+    split; auto. split; auto. split.
+    { intros n. split; intros Hn.
+      - apply uniqueZ_In. fold useful. rewrite <- E. eapply Permutation_in; eauto.
+      - auto. }
+    split; [split; auto|]. auto.
+  - assert (Su : StronglySorted Z.lt useful) by apply uniqueZ_sorted.
+    rewrite (sweep_correct _ _ Ss Su Hinc) in H.
+    destruct (map_nodal _ (nodal m)) as [nd|]; [|discriminate].
+    inversion H; subst m'; clear H. simpl.
+    rewrite filter_mask_mask_ids.
+    set (kept := filter (fun e : Z * (nat * V) => memZ (fst e) useful) sorted).
+    assert (Hk : forall n, In n (ids (map strip kept)) <-> In n useful).
+    { intros n. rewrite ids_strip. unfold ids, kept. rewrite in_map_iff. split.
+      - intros [e [E He]]. apply filter_In in He. destruct He as [_ He]. subst. apply memZ_In; auto.
+      - intros Hn. pose proof (Hinc n Hn) as Hs. unfold ids in Hs. apply in_map_iff in Hs.
+        destruct Hs as [e [E He]]. exists e. split; auto. apply filter_In. split; auto.
+        subst. apply memZ_In; auto. }
+    assert (NDk : NoDup (ids (map strip kept))).
+    { rewrite ids_strip. unfold kept. apply filter_NoDup. apply sort_NoDup; auto. }
+    split; auto. split; auto. split.
+    { intros n. rewrite Hk. unfold useful. apply uniqueZ_In. }
+    split.
+    { split; simpl; auto. intros n Hn. apply Hk. apply uniqueZ_In. exact Hn. }
+    intros n Hn. apply sub_lookup; auto.
+    intros x Hx. apply in_map_iff in Hx. destruct Hx as [e [E He]]. subst x.
+    apply filter_In in He. destruct He as [He _].
+    assert (Hin : In (strip e) (map strip (indexed (nodes m)))).
+    { apply in_map. eapply Permutation_in; [apply Permutation_sym, sort_perm|exact He]. }
+    unfold indexed in Hin. rewrite strip_indexed_gen in Hin. exact Hin.
+Qed.
+
+End CutNodes.
+
+Section Positional.
+Context {V : Type}.
+Implicit Types m : mesh V.
+
+(* nodal variables through remove_useless_nodes when they are carried by id *)
+Theorem remove_useless_nodes_nodal_by_id c m m' :
+  wf_mesh m = true -> useless_by_id c = true -> remove_useless_nodes c m = Some m' ->
+  m' = m \/ nodal_kept m m'.
+Proof.
+  intros W Hc H. unfold remove_useless_nodes in H. rewrite Hc in H.
+  destruct (Nat.eqb _ _).
+  - destruct (list_eqb _ _); [|discriminate]. inversion H; auto.
+  - destruct (sweep _ _) as [msk|]; [|discriminate].
+    destruct (map_nodal _ (nodal m)) as [nd|] eqn:Sd; [|discriminate].
+    inversion H; subst m'; clear H. right. unfold nodal_kept; simpl.
+    eapply Forall2_impl; [|apply map_nodal_spec; exact Sd].
+    intros nv nv' _ [A B]. simpl in B. split; auto. split.
+    + eapply select_ids_ids; eauto.
+    + intros n Hn. eapply select_ids_lookup; eauto.
+Qed.
+
+(* to_first_order: the nodes kept are nodes of the mesh, each once, with
+   their coordinates; they are exactly the nodes the reduced elements use;
+   elemental data untouched *)
+Lemma firstn_incl {A} k (l : list A) : incl (firstn k l) l.
+Proof.
+  revert l; induction k as [|k IH]; intros l; simpl; [intros y []|].
+  destruct l as [|x l]; [intros y []|].
+  intros y [E|E]; [left; exact E|right; apply IH; exact E].
+Qed.
+
+Lemma mapM_Forall2 {A B} (f : A -> option B) l r : mapM f l = Some r ->
+  Forall2 (fun a b => f a = Some b) l r.
+Proof.
+  revert r. induction l as [|a l IH]; simpl; intros r H.
+  - inversion H. constructor.
+  - destruct (f a) eqn:F; [|discriminate]. destruct (mapM f l); [|discriminate].
+    inversion H; subst. constructor; auto.
+Qed.
+
+Lemma elems_first_order_conn (bs fe : @blocks conn) : elems_first_order bs = Some fe ->
+  incl (conn_ids fe) (conn_ids bs).
+Proof.
+  intros H. apply mapM_Forall2 in H. unfold conn_ids.
+  induction H as [|[t b] b' bs fe Hb F IH]; [intros x []|].
+  simpl. intros n Hn. apply in_app_iff in Hn. apply in_app_iff.
+  destruct Hn as [Hn|Hn]; [left|right; apply IH; exact Hn].
+  simpl in Hb. destruct (first_order_arity t) as [[k|]|]; try discriminate; inversion Hb; subst; simpl in *; auto.
+  apply in_flat_map in Hn. destruct Hn as [[i c] [Hc Hn]]. apply in_map_iff in Hc.
+  destruct Hc as [[i' c'] [E Hc]]. simpl in E. inversion E; subst i c. simpl in Hn.
+  apply in_flat_map. exists (i', c'). split; auto. simpl. eapply firstn_incl; eauto.
+Qed.
+
+Theorem to_first_order_nodes c m m' :
+  wf_mesh m = true -> to_first_order c m = Some m' ->
+  m' = m \/
+  (exists fe, elems_first_order (elems m) = Some fe /\ elems m' = fe /\ elemental m' = elemental m /\
+     (forall n, In n (ids (nodes m')) <-> In n (conn_ids fe)) /\
+     self_contained m' /\
+     (forall n, In n (ids (nodes m')) -> lookup n (nodes m') = lookup n (nodes m))).
+Proof.
+  intros W H. destruct (wf_parts m W) as [NDn [NDe Href]].
+  unfold to_first_order in H. destruct (negb _); [inversion H; auto|].
+  destruct (elems_first_order (elems m)) as [fe|] eqn:Fe; [|discriminate].
+  destruct (map_nodal _ _) as [nd|]; [|discriminate].
+  inversion H; subst m'; clear H. right. exists fe. simpl.
+  set (first := uniqueZ (conn_ids fe)).
+  assert (Hk : forall n, In n (ids (filter (fun e : Z * V => memZ (fst e) first) (nodes m))) <->
+                         In n (conn_ids fe)).
+  { intros n. unfold ids. rewrite in_map_iff. split.
+    - intros [e [E He]]. apply filter_In in He. destruct He as [_ He]. subst.
+      apply memZ_In in He. unfold first in He. apply (proj1 (uniqueZ_In _ _)) in He. exact He.
+    - intros Hn. pose proof (Href n (elems_first_order_conn _ _ Fe n Hn)) as Hs.
+      unfold ids in Hs. apply in_map_iff in Hs. destruct Hs as [e [E He]]. exists e. split; auto.
+      apply filter_In. split; auto. subst. apply memZ_In. apply uniqueZ_In. exact Hn. }
+  assert (Em : filter_mask (map (fun i => memZ i first) (ids (nodes m))) (nodes m) =
+               filter (fun e : Z * V => memZ (fst e) first) (nodes m)).
+  { unfold ids. rewrite map_map. apply (filter_mask_map (fun e : Z * V => memZ (fst e) first)). }
+  rewrite Em.
+  split; auto. split; auto. split; auto. split; [exact Hk|].
+  split.
+  - split; simpl; [apply filter_NoDup; auto | intros n Hn; apply Hk; exact Hn].
+  - intros n Hn. apply sub_lookup; auto; [apply filter_NoDup; auto|].
+    intros x Hx. apply filter_In in Hx. tauto.
+Qed.
+
+(* to_surface / to_facets: nodes are nodes of the mesh with their coordinates *)
+Theorem to_surface_nodes c m m' surf remove :
+  wf_mesh m = true -> to_surface c m surf remove = Some m' ->
+  incl (nodes m') (nodes m) /\
+  (NoDup (ids (nodes m')) -> forall n, In n (ids (nodes m')) -> lookup n (nodes m') = lookup n (nodes m)).
+Proof.
+  intros W H. destruct (wf_parts m W) as [NDn _].
+  unfold to_surface in H. destruct (mapM _ surf) as [groups|]; [|discriminate].
+  assert (Hi : incl (nodes m') (nodes m)).
+  { destruct (negb remove).
+    - inversion H; subst; simpl. intros x Hx; exact Hx.
+    - destruct (select_pos _ (nodes m)) as [ns|] eqn:Sp; [|discriminate].
+      destruct (map_nodal _ _); [|discriminate]. inversion H; subst; simpl.
+      eapply select_pos_incl; eauto. }
+  split; auto. intros ND n Hn. apply sub_lookup; auto.
+Qed.
+
+Theorem to_facets_nodes m facets :
+  nodes (to_facets m facets) = nodes m /\ nodal (to_facets m facets) = nodal m.
+Proof. split; reflexivity. Qed.
+
+End Positional.
+
+(* --------------------------------------------------------- refutations *)
+(* a nodal variable stored in another order than the nodes (same ids):
+   the three operations that carry it by storage position attach values to
+   other ids / retain other ids.  Rows are integers; the variable holds the
+   id itself as value, the coordinates 10*id. *)
+Definition m_ref : mesh Z :=
+  {| nodes := [(3, 30); (1, 10); (9, 90); (2, 20)];
+     elems := [(3%nat, [(7, [1; 2; 3])])];                 (* one tri 1-2-3; node 9 unused *)
+     nodal := [(0%nat, [(2, 2); (9, 9); (1, 1); (3, 3)])];
+     elemental := [] |}%Z.
+
+Theorem remove_useless_nodes_refuted c : useless_by_id c = false ->
+  wf_mesh m_ref = true /\
+  exists m', remove_useless_nodes c m_ref = Some m' /\
+             ids (nodes m') = [1; 2; 3]%Z /\
+             exists var', nodal m' = [(0%nat, var')] /\ lookup 1%Z var' = Some 9%Z.
+Proof.
+  intros H. split; [reflexivity|]. unfold remove_useless_nodes. rewrite H.
+  eexists. split; [vm_compute; reflexivity|]. split; [reflexivity|].
+  eexists. split; reflexivity.
+Qed.
+
+Definition m_ref2 : mesh Z :=
+  {| nodes := [(3, 30); (1, 10); (9, 90); (2, 20); (4, 40); (11, 110); (12, 120); (13, 130); (14, 140);
+               (15, 150); (16, 160)];
+     elems := [(9%nat, [(7, [1; 2; 3; 4; 11; 12; 13; 14; 15; 16])])];     (* one tet2 *)
+     nodal := [(0%nat, [(16, 16); (15, 15); (14, 14); (13, 13); (12, 12); (11, 11); (4, 4); (2, 2);
+                        (9, 9); (1, 1); (3, 3)])];
+     elemental := [] |}%Z.
+
+Theorem to_first_order_refuted c : first_order_by_id c = false ->
+  wf_mesh m_ref2 = true /\
+  exists m', to_first_order c m_ref2 = Some m' /\
+             ids (nodes m') = [3; 1; 2; 4]%Z /\
+             exists var', nodal m' = [(0%nat, var')] /\ ids var' = [16; 15; 13; 12]%Z.
+Proof.
+  intros H. split; [reflexivity|]. unfold to_first_order. rewrite H.
+  eexists. split; [vm_compute; reflexivity|]. split; [reflexivity|].
+  eexists. split; reflexivity.
+Qed.
+
+Theorem to_surface_refuted c : surface_by_id c = false ->
+  exists m', to_surface c m_ref [(3%nat, [[1; 3; 0]%nat])] true = Some m' /\
+             ids (nodes m') = [3; 1; 2]%Z /\
+             exists var', nodal m' = [(0%nat, var')] /\ lookup 3%Z var' = Some 2%Z.
+Proof.
+  intros H. unfold to_surface. rewrite H.
+  eexists. split; [vm_compute; reflexivity|]. split; [reflexivity|].
+  eexists. split; reflexivity.
+Qed.
